@@ -1,4 +1,4 @@
-SOURCE_COMMITS = []
+SOURCE_COMMITS = ['2a82dd5']
 NOTES = ('Exit codes of ./check: 0 all obligations discharged; 1 violation (VIOLATION line); '
          '2 undecided (solver unknown / extraction failure / contract binding lost); 3 checker crash. '
          'See DESIGN.md.')
@@ -27,4 +27,13 @@ CLAIMED = {
         'buffered_shuffle_batch_client_datasets are covered by a bounded native stand-in only (labelled bounded in the evidence).',
    note='Trusted: TABLE contracts of the helpers (proved in C03), FLAT ghost concatenation axioms, per-example preprocessor '
         'hypothesis. Bounded (not proved): buffered_shuffle multiset property, two-level shuffle. Not covered: non-trivial order.'),
+ 'C08': dict(
+   text='Unbounded proof, over ids in an arbitrary total order, that intersect_slice_ranges is the meet of two half-open ranges '
+        '(all 16 None patterns); that the SQL WHERE literal (parsed) and the explicit range tests of SQLite point lookups denote '
+        'the same predicate, with KeyError exactly outside the view; that Subset/InMemory slicing keeps exactly the ids in range and '
+        'never raises (empty views included), get_clients answers in request order, preprocess_* append to exactly one chain and '
+        'leave the parent view unchanged; that both preprocessor chains apply functions in registration order to a copy.',
+   note='Trusted: sqlite3 point lookups / BLOB ordering, interface contract of the wrapped base of SubsetFederatedData, purity of user '
+        'functions. Known finding D-08b (SQLite client_size vs row-count-changing client preprocessors) is reported as KNOWN-FINDING '
+        'and proved absent outside its region. shuffled_clients relies on buffered_shuffle (bounded only, C15).'),
 }
